@@ -75,6 +75,13 @@ def main():
                         "%s did not return within %d s on this input (the model terminates by construction; every run of the "
                         "pinned tree takes a fraction of that)" % (h.where, h.seconds),
                         {"kind": "hang", "where": h.where, "case": h.case})
+        except Exception as e:
+            # the driver died with an exception raised by or through the implementation: nothing after it was explored
+            # (a check must report, not crash); the traceback names the call
+            import traceback
+            rep.cov["obligations"] += 1
+            rep.broken("driver:exception", "the check's driver died with %s: %s" % (type(e).__name__, str(e)[:200]),
+                       {"kind": "driver_exception", "traceback": traceback.format_exc()[-3000:]})
         return rep.finish()
     finally:
         shutil.rmtree(scratch, ignore_errors=True)
